@@ -284,7 +284,7 @@ func genLongIDN(rng *rand.Rand) string {
 const enumAlpha = "019afg:.%[]"
 
 func genC02(rng *rand.Rand, tier string) (cases []string) {
-	n := 6000
+	n := 15000
 	enumLen, tieEnumLen := 5, 3
 	if tier == "thorough" {
 		n = 400000
